@@ -407,6 +407,10 @@ class Builder:
         self.ctx = ctx
         self.specs = {}
         self.specobjs = {}
+        # ids of every container the USER (this builder) put into a spec: targets / scopes of nested calls,
+        # default values, literal operands, constants.  They belong to the spec whatever attribute keeps them
+        self.user_ids = set()
+        self._keep = []
         self.text_factory = text_factory or (lambda text, at: text)
 
     def call(self, c):
@@ -418,8 +422,17 @@ class Builder:
             self.specobjs[sid] = Spec(self.specs[sid])
             register_baseline(self.specobjs[sid])
         sp = c.get('spelling', 'plain')
-        return BuiltCall(build_value(c['t'], sp), self.specs[sid], {k: build_value(v, sp) for k, v in c['sc']}, c,
-                         self.specobjs.get(sid) if c.get('via') == 'spec' else None)
+        return self._own(BuiltCall(build_value(c['t'], sp), self.specs[sid], {k: build_value(v, sp) for k, v in c['sc']}, c,
+                         self.specobjs.get(sid) if c.get('via') == 'spec' else None))
+
+    def _own(self, x):
+        self._keep.append(x)
+        if isinstance(x, BuiltCall):
+            reachable_ids(x.target, self.user_ids)
+            reachable_ids(x.scope, self.user_ids)
+        else:
+            reachable_ids(x, self.user_ids)
+        return x
 
     def spec(self, n, at):
         op = n['op']
@@ -450,16 +463,16 @@ class Builder:
             if n['d']['has'] and n['d']['s']:
                 return Coalesce(*subs, default=self.spec(n['d']['s'][0], at + (len(subs) + 1,)))
             if n['d']['has']:
-                return Coalesce(*subs, default=build_value(n['d']['v']))
+                return Coalesce(*subs, default=self._own(build_value(n['d']['v'])))
             return Coalesce(*subs)
         if op == 'arglist':        # a list ARGUMENT (argument mode rebuilds it and evaluates the sub-specs)
             return [self.spec(c, at + (i,)) for i, c in enumerate(n['c'], 1)]
         if op == 'scopelit':       # an empty literal container as a scope value, written through the scope
             return (S(seen={}), GA.seen['k'], S.seen)
         if op == 'check':
-            return Check(equal_to=build_value(n['eq']), validate=VGate(self.ctx, at + (1,), n['f']))
+            return Check(equal_to=self._own(build_value(n['eq'])), validate=VGate(self.ctx, at + (1,), n['f']))
         if op == 'tplus':          # T arithmetic with a container operand
-            return T + build_value(n['v'])
+            return T + self._own(build_value(n['v']))
         if op == 'refdef':
             return Ref(n['name'], self.spec(n['c'], at + (1,)))
         if op == 'refuse':
@@ -469,7 +482,7 @@ class Builder:
                 return (S(v=Vars({'n': n['init']})), [GA.v.n], Probe(self.ctx, at + (3,), 'id'), S.v.n)
             return (S(v=Vars({'n': n['init']})), [GA.v.n], S.v.n)
         if op == 'invoke':         # star-kwargs first, then constants
-            return Invoke(kwfn).star(kwargs=self.spec(n['c'], at + (1,))).constants(**{n['k']: build_value(n['v'])})
+            return Invoke(kwfn).star(kwargs=self.spec(n['c'], at + (1,))).constants(**{n['k']: self._own(build_value(n['v']))})
         if op == 'acc':
             if n['kind'] == 'group':
                 return Group([Probe(self.ctx, at + (1,), n['f'])])
@@ -581,6 +594,31 @@ def register_baseline(o, depth=0):
         _BASELINE[id(o)] = (o, frozenset(str(k) for k, v in items if not (str(k).startswith('_') and v is None)))
         for _, v in items:
             register_baseline(v, depth + 1)
+
+
+def _private(name):
+    name = str(name)
+    return name.startswith('_') and not (name.startswith('__') and name.endswith('__'))
+
+
+def reachable_ids(o, seen, depth=0, public_only=False):
+    """ids of everything reachable from o.  public_only: do not follow private ('_x') attributes of
+    objects - what hangs only below those is internal state of the object, not part of the value
+    the user wrote (containers the user passed in are registered separately, see Zoo.lit)"""
+    if _is_leaf(o) and not isinstance(o, (set, frozenset)) or depth > 30 or id(o) in seen:
+        return
+    seen.add(id(o))
+    if isinstance(o, dict):
+        for k, v in dict.items(o):
+            reachable_ids(k, seen, depth + 1, public_only)
+            reachable_ids(v, seen, depth + 1, public_only)
+    elif isinstance(o, (list, tuple, set, frozenset)):
+        for x in list(o):
+            reachable_ids(x, seen, depth + 1, public_only)
+    else:
+        for name, v in _attr_items(o):
+            if not (public_only and _private(name)):
+                reachable_ids(v, seen, depth + 1, public_only)
 
 
 def _late_private(o, name):
